@@ -285,3 +285,140 @@ Proof.
          (conj fh_delete_fails_ok (conj fh_reset_delete_fails_ok (conj fh_list_fails_ok
          (conj fh_trunc_create_leaves_ok fh_rotate_create_leaves_ok)))))))))).
 Qed.
+
+(* ===== BEGIN block "byte level" (one segment file, Seg/FailFacts.v) =====
+
+   The WAL-level model above has no bytes: a failed batch that is overwritten is gone.
+   In the file it is not.  A batch whose write or fsync FAILED is rolled back in the
+   writer only; a shorter batch appended over its start leaves the rest of it --
+   entry frames and its commit frame -- behind the valid chain.  The statements below
+   are about the byte-level writer (Seg/Writer.v append / force_seal with the faults
+   FWrite / FSync: writer rolled back, the bytes of a write whose fsync failed stay in
+   the file) and the byte-level recovery (Seg/Recover.v recover_state = recoverTailState
+   as repaired by "fix: recovery verifies every commit frame"; the algorithm before the
+   repair is Seg/RecoverOld.v and is REFUTED below).
+
+   frun info k0 ops: the instrumented run of ANY list of operations (op, fault) from
+   init_empty on a file of k0 zero bytes.  fs_w / fs_file: writer and file at the end;
+   fs_bs: the batches of the operations that succeeded; fs_pend: the batches of the
+   writes that failed since the last success (a refused operation, or one whose WRITE
+   failed, writes nothing and leaves no trace); fs_ok: every write ended below 2^32.
+
+   no_stale_commit f p (decidable: no_stale_commitb): no commit frame the scan of f meets
+   at or behind offset p stores the CRC-32C of its apparent range (the bytes between the
+   preceding commit frame of the scan and itself) -- the analogue of no_torn_collision
+   for leftovers; it fails only on a genuine collision of the checksum, or when a
+   payload written earlier contains a forged frame sequence with a matching CRC. *)
+From RW Require Import Base.Bytes Base.Crc32c Fmt.Frame Seg.Writer Seg.Recover Seg.RecoverOld Seg.Reader Seg.SegAbs
+     Seg.WriterFacts Seg.ScanFacts Seg.RecoverFacts Seg.ChainFacts Seg.FailFacts Gen.Constants.
+
+(* THE THEOREM (restart without power loss).  After EVERY history of successful,
+   refused and failed appends / force-seals: the running writer is the writer of the
+   acknowledged batches, and recovery of the file returns -- all fields -- the writer
+   of the acknowledged batches, or of those plus the LAST failed write (whose bytes are
+   then completely in the file).  Never an entry of a failed batch that was followed by
+   another write, never a part of a batch, never a mix of two batches. *)
+Theorem C10_byte_fail_recover :
+  forall info k0 ops,
+    hdr_wf info -> fops_wf ops ->
+    let st := frun info k0 ops in
+    fs_ok st = true ->
+    let bs' := fs_bs st ++ last_of (fs_pend st) in
+    fs_w st = wst info (cstate info (fs_bs st)) /\
+    (no_stale_commit (fs_file st) (len (image info bs')) ->
+     recover_state info (fs_file st) = Some (wst info (cstate info bs'))).
+Proof. exact fail_recover. Qed.
+Print Assumptions C10_byte_fail_recover.
+
+(* after an ACKNOWLEDGED operation a restart is invisible, whatever failed before *)
+Theorem C10_byte_restart_after_ack :
+  forall info k0 ops,
+    hdr_wf info -> fops_wf ops ->
+    let st := frun info k0 ops in
+    fs_ok st = true -> fs_pend st = [] ->
+    no_stale_commit (fs_file st) (len (image info (fs_bs st))) ->
+    recover_state info (fs_file st) = Some (fs_w st).
+Proof. exact fail_recover_acked. Qed.
+Print Assumptions C10_byte_restart_after_ack.
+
+(* the same from any state that satisfies the invariant of such runs, e.g. the clean
+   file every RecoverTail leaves (image of a chain, then zeros): histories with
+   restarts in between *)
+Theorem C10_byte_fail_recover_from :
+  forall info st0 ops,
+    hdr_wf info -> finv info st0 -> fops_wf ops ->
+    let st := frun_from st0 ops in
+    fs_ok st = true ->
+    let bs' := fs_bs st ++ last_of (fs_pend st) in
+    fs_w st = wst info (cstate info (fs_bs st)) /\
+    (no_stale_commit (fs_file st) (len (image info bs')) ->
+     recover_state info (fs_file st) = Some (wst info (cstate info bs'))).
+Proof. exact fail_recover_from. Qed.
+Print Assumptions C10_byte_fail_recover_from.
+
+Theorem C10_byte_clean_state :
+  forall info bs k, chain_wf info c0 bs -> finv info (fclean info bs k).
+Proof. exact finv_clean. Qed.
+Print Assumptions C10_byte_clean_state.
+
+(* the law behind it: the image of ANY chain followed by ANY bytes in which no commit
+   frame verifies is recovered as the chain *)
+Theorem C10_byte_recover_behind :
+  forall info bs R,
+    hdr_wf info -> chain_wf info c0 bs ->
+    let s := cstate info bs in
+    no_stale_commit (c_img s ++ R) (len (c_img s)) ->
+    recover_state info (c_img s ++ R) = Some (wst info s).
+Proof. exact recover_behind. Qed.
+Print Assumptions C10_byte_recover_behind.
+
+Theorem C10_byte_no_stale_commit_decidable :
+  forall f p, no_stale_commitb f p = true <-> no_stale_commit f p.
+Proof. exact no_stale_commitb_spec. Qed.
+Print Assumptions C10_byte_no_stale_commit_decidable.
+
+(* the fault semantics the histories rest on: an operation that does nothing is not
+   affected by a fault; otherwise the result is an I/O error, the writer is rolled
+   back, and the write has happened (fsync failed) or not (write failed) *)
+Theorem C10_byte_fault_semantics :
+  forall w op flt r w' acts,
+    do_op w op = (r, w', acts) -> flt <> FNone ->
+    do_fop w (op, flt) =
+    match acts with
+    | [] => (r, w', [])
+    | _ => (WErrIO, w, match flt with FSync => acts | _ => [] end)
+    end.
+Proof. exact do_fop_fault. Qed.
+Print Assumptions C10_byte_fault_semantics.
+
+(* non-vacuity AND the finding.  History of honest batches (fx_ops): [e1] succeeds;
+   a = [a2; a3; a4] -- fsync fails; b = [b2; b3] -- fsync fails; c = [c2] succeeds, its
+   commit frame ends where b's second frame begins and b's commit frame ends where a's
+   third frame begins: behind the commit of c lie [b3][commit b][a4][commit a]. *)
+Example C10_byte_ex_hyps : hdr_wf fx_info /\ fops_wf fx_ops.
+Proof. exact fx_hyps. Qed.
+
+(* the hypotheses hold on it and the repaired recovery returns the running writer:
+   entries e1, c2 and nothing else *)
+Example C10_byte_ex_history :
+  fs_ok fx_st = true /\
+  fs_bs fx_st = [([fx_e1], false); ([fx_c2], false)] /\ fs_pend fx_st = [] /\
+  no_stale_commitb (fs_file fx_st) (len (image fx_info (fs_bs fx_st))) = true /\
+  recover_state fx_info (fs_file fx_st) = Some (fs_w fx_st) /\
+  length (w_offsets (fs_w fx_st)) = 2%nat /\
+  tail_get (fs_w fx_st) (fs_file fx_st) 2 = ROk fx_c2 /\
+  tail_get (fs_w fx_st) (fs_file fx_st) 3 = RNotFound.
+Proof. vm_compute. repeat split; reflexivity. Qed.
+
+(* THE DEFECT: on the same file the algorithm before the repair (it verified only the
+   last commit frame and fell back to the previous one unverified) returns a writer
+   with 3 entries whose third entry is b3 -- an entry of a batch that failed, was
+   rolled back and was overwritten by c *)
+Example C10_byte_recover_old_refuted :
+  exists w, recover_state_old fx_info (fs_file fx_st) = Some w /\
+            length (w_offsets w) = 3%nat /\ w_commit_idx w = 3 /\
+            tail_get w (fs_file fx_st) 2 = ROk fx_c2 /\
+            tail_get w (fs_file fx_st) 3 = ROk fx_b3 /\
+            recover_state_old fx_info (fs_file fx_st) <> recover_state fx_info (fs_file fx_st).
+Proof. exact recover_old_refuted. Qed.
+(* ===== END block "byte level" ===== *)
